@@ -12,7 +12,8 @@ import programs
 
 
 def run_family(pid, tier, family, invariants, props, cats, bounds, sample_n, j=1,
-               required_actions=(), verdict=None, note='', pads=(0,), watch=False):
+               required_actions=(), verdict=None, note='', pads=(0,), watch=False,
+               jitter=False, repeat=1, sched_independent=False):
     """family: list of program dicts.  bounds: (max_hist, max_cmds).  Returns (verdict, coverage)."""
     t0 = time.time()
     verdict = verdict or common.Verdict(pid)
@@ -60,12 +61,20 @@ def run_family(pid, tier, family, invariants, props, cats, bounds, sample_n, j=1
                               'specification violates %s on program %s (TLC counterexample)' % (res.violated, prog['name']))
             continue
         groups = histories.group_histories(hs)
-        groups = {k: v for k, v in groups.items() if histories.interesting(k)}
+        if sched_independent:
+            for inp, i in histories.schedule_dependent(groups):
+                rp = os.path.join(d, 'schedule_dependent.json')
+                with open(rp, 'w') as f:
+                    json.dump({'program': prog, 'input': inp, 'step': i, 'alternatives': groups[inp]}, f, indent=1, default=list)
+                verdict.violation('sched:%s:%s' % (prog['name'], json.dumps(inp)), rp,
+                                  'specification: outcome of %s depends on the schedule (program %s)' % (list(inp), prog['name']))
+                break
+        groups = {k: v for k, v in groups.items() if histories.interesting(k) or sched_independent}
         tot_groups += len(groups)
         chosen = histories.sample(groups, sample_n if sample_n else len(groups), common.seed())
         pad = pads[(common.seed() + len(prog['name'])) % len(pads)]
         n_ok, fails = histories.replay_all(prog, chosen, bindir, os.path.join(d, 'replay'), nworkers=10, cats=cats,
-                                           pad=pad, watch=watch)
+                                           pad=pad, watch=watch, jitter=jitter, repeat=repeat)
         tot_replayed += n_ok + len(fails)
         tot_alts += sum(len(g) for g in chosen)
         if chosen and len(samples) < 4:
@@ -100,5 +109,6 @@ def run_family(pid, tier, family, invariants, props, cats, bounds, sample_n, j=1
         'action_coverage': {k: v[1] for k, v in sorted(cover.items())},
         'note': note,
         'output_padding_bytes': list(pads), 'concurrent_reader': watch,
+        'script_jitter': jitter, 'real_runs_per_history': repeat, 'schedule_independence_checked': sched_independent,
     }
     return verdict, coverage, tool_errors, time.time() - t0
